@@ -25,6 +25,7 @@ EXPLANATION = (
     "positions of that list (rule shared with C06-B2) and no writer of the reaction column reads an attribute of a long-lived stage "
     "object that can hold a value of an earlier batch (rule shared with C06-B7)."
     ' (T9) atom-map removal keeps every molecule (shared with C15-Rg1/Rg2).'
+    " (T3) follows the standardiser list into every function it is forwarded to. (T10) a range of a side's component list reaches a text field only together with its complement, the head range (the given molecules) untouched."
 )
 ASSUMPTIONS = [
     "the input contains no free [H]/[O] placeholder components (precondition of the property): whole-component filters on those literals do not touch given molecules",
